@@ -324,9 +324,12 @@ def run(scn, ch, log=False):
                 and scn["end"] == "keep" and obs.handler_running == 0 and delivered.isascii():
             tailb = delivered[verdict[1]:]
             _tm, tv = http1.parse_requests(tailb, limits)
-            upresp = complete_finals[len(msgs) - 1] if 0 < len(msgs) <= len(complete_finals) else None
-            said_close = upresp is None or any(n.lower() == b"connection" and b"close" in v.lower() for n, v in upresp["headers"]) \
-                or upresp["version"] == (1, 0)
+            # the answer to the declined upgrade and to every well-formed request of the tail: any of them may
+            # legitimately have ended the connection (Connection: close, HTTP/1.0, an error answer)
+            upresps = complete_finals[len(msgs) - 1:] if 0 < len(msgs) <= len(complete_finals) else None
+            said_close = upresps is None or any(
+                any(n.lower() == b"connection" and b"close" in v.lower() for n, v in r_["headers"])
+                or r_["version"] == (1, 0) or r_["status"] >= 500 for r_ in upresps)
             if tv[0] == "REJECT" and tv[2] in SAFE and b"\r\n\r\n" in tailb and len(complete_finals) >= len(msgs) and not said_close:
                 last = finals[-1]["status"] if finals else None
                 if server_closed and (last is None or not 400 <= last < 500):
